@@ -209,6 +209,49 @@ func (lw *l2world) doSync(tr *vhlib.Trace, p vhlib.ParsedLine, pick func(n int, 
 		twinRes, tres.Points, orDash(tres.Kinds), orDash(tres.Txs), vhlib.FmtList(fs), plus(dl), retry, eq, plus(rdiff), cacheAfter, w.main.integrity()))
 }
 
+// doIRestart: close the indexer, wallet, contract and settings managers and the store, reopen them on the same
+// files and compare what they serve: the indexer's tip (against the persisted marker and against the tip before),
+// the wallet's balance as the wallet manager reports it, and every store getter.
+func (lw *l2world) doIRestart(tr *vhlib.Trace, p vhlib.ParsedLine) {
+	w := lw.w
+	observe := func(n *node) snapshot {
+		s := storeSnapshot(n.sd.st, 0)
+		s["m:indextip"] = js(n.idx.Tip())
+		bal, err := n.wm.Balance()
+		s["m:walletbalance"] = js([]any{bal, errClass(err)})
+		s["m:indexagrees"] = js(n.indexAgrees())
+		cfg := n.sm.Settings()
+		cfg.Revision = 0
+		s["m:settings"] = js(cfg)
+		return s
+	}
+	before := observe(lw.main)
+	lw.main.close()
+	var alters []string
+	w.main, alters = w.restartSide(w.main, p.Args["mode"] == "abrupt")
+	lw.main = lw.openNode(w.main)
+	after := observe(lw.main)
+	comps := map[string][]string{"tip": {"tip", "announce", "m:indextip", "m:indexagrees"}, "wallet": {"wallet", "m:walletbalance"},
+		"contracts": {"contracts"}, "metrics": {"metrics"}, "settings": {"settings", "m:settings"}, "accounts": {"accounts"}}
+	var names []string
+	for c := range comps {
+		names = append(names, c)
+	}
+	sort.Strings(names)
+	var parts []string
+	for _, c := range names {
+		same := 1
+		for _, k := range comps[c] {
+			if before[k] != after[k] {
+				same = 0
+			}
+		}
+		parts = append(parts, fmt.Sprintf("c:%s=%d", c, same))
+	}
+	tr.Count("irestart")
+	tr.Line(p.Raw, fmt.Sprintf("%s nhooks=0 dlvb=[] dlva=[] alters=%s integ=%s", strings.Join(parts, " "), vhlib.FmtList(alters), w.main.integrity()))
+}
+
 // indexerHistory: contracts waiting for confirmation (they get rejected as the chain grows), payouts maturing
 // into the wallet, the host's announcement, all through the real syncDB.
 func (g *gen) indexerHistory(rounds int) {
@@ -243,7 +286,11 @@ func (g *gen) indexerHistory(rounds int) {
 		if i == 1 {
 			g.setup(g.addContractLine(r.Chance(1, 2), false))
 		}
+		if r.Chance(1, 2) {
+			lw.doIRestart(g.tr, parseLine(fmt.Sprintf("irestart mode=%s", vhlib.Pick(r, "clean", "abrupt"))))
+		}
 	}
+	lw.doIRestart(g.tr, parseLine("irestart mode=clean"))
 }
 
 func replaySync(w *world, lw **l2world, tr *vhlib.Trace, op vhlib.ParsedLine, batch int) {
